@@ -50,7 +50,8 @@ Aspects == CASE Focus = "all"    -> AllAspects
              [] Focus = "C08"    -> {"sel", "time"}
              [] Focus = "C09"    -> {"reg"}
              [] Focus = "C10"    -> {"snapshot", "serial", "ledger", "total", "peers", "links", "noncefull", "reg", "withdraw", "time"}
-             [] Focus = "C10race" -> {"total", "nonce", "snapshot"}
+             [] Focus = "C10race" -> {"total", "nonce", "snapshot", "reads"}
+             [] Focus = "C13race" -> {"total", "reads"}
              [] Focus = "C01race" -> {"total"}
              [] Focus = "C05race" -> {"nonce"}
              [] Focus = "C07race" -> {"withdraw", "nonce"}
@@ -203,6 +204,11 @@ StoreStep(ln) ==
     [] ln.op = "Reopen" ->
          /\ r.ok
          /\ Finish(ReopenF(S).st, ln)
+    [] ln.op = "NonceFill" ->
+         \* requests of many other identities (outside the modelled name space): nothing the model knows changes,
+         \* in particular no nonce of a modelled identity
+         /\ r.ok
+         /\ Finish(S, ln)
 
 \* the states a killed process may leave behind for the operation in flight:
 \* not applied at all, or applied completely
@@ -229,7 +235,7 @@ CrashStep(ln) ==
     /\ l' = l + 1
     /\ UNCHANGED W
 
-IsStoreOp(op) == op \in {"Downgrade", "Sleep", "SetNode", "GetNode", "ActiveHosts", "NodePeers", "UpdateNodePeers",
+IsStoreOp(op) == op \in {"NonceFill", "Downgrade", "Sleep", "SetNode", "GetNode", "ActiveHosts", "NodePeers", "UpdateNodePeers",
                          "GetNodeBalance", "AddNodeBalance", "GetAccountBalance", "AddAccountBalance",
                          "AddAccountNode", "IsAccountNode", "GetAccountNodes", "Nonce", "Stats", "Reopen"}
 
